@@ -165,8 +165,13 @@ class Ctx:
     def rng(self, *salt):
         return common.rng_for(self.seed, self.pid, *salt)
 
+    escalate = False
+
     def scale(self, quick, thorough):
-        return thorough if self.tier == "thorough" else quick
+        if self.tier == "thorough":
+            return thorough
+        # source of an anchored function differs from the validated baseline: look harder (never a verdict by itself)
+        return min(thorough, quick * 4) if self.escalate else quick
 
 
 class Outcome:
@@ -306,6 +311,21 @@ def replay(pid, path):
     return 0
 
 
+def anchored_changes(pid):
+    """Changed functions (vs verif/fingerprints_baseline.json) in the files the property is anchored in."""
+    from . import gen
+    ch = gen.source_changes()
+    if not ch:
+        return []
+    files = {"maflib/util.py", "maflib/validation.py"}
+    with open(os.path.join(VERIF, "properties.jsonl")) as h:
+        for l in h:
+            d = json.loads(l)
+            if d["id"] == pid:
+                files |= set(d.get("anchors", {}).get("files", []))
+    return [c for c in ch if c.split(":")[0] in files or (c.startswith("maflib/schemas/") and pid in ("C01", "C05", "C14", "C20"))]
+
+
 def setup():
     with Lock():
         ok, msg = run_gen()
@@ -367,6 +387,8 @@ def check(pid, tier, seed):
 
     ctx = Ctx(pid, tier, seed)
     ctx.driver_ok = driver_ok
+    changed_src = anchored_changes(pid)
+    ctx.escalate = bool(changed_src)
     out = mod.run(ctx)
     for d in out.disagreements[:1]:
         broken.append(("correspondence", d.get("op", "?"), "model and implementation differ"))
@@ -450,6 +472,7 @@ def check(pid, tier, seed):
         "broken": [{"kind": b[0], "name": b[1]} for b in broken],
         "notes": out.notes,
         "leanchecker": recheck,
+        "source_changes_vs_baseline": changed_src[:40],
     }
     cov.update(out.extra)
     if not n_obl:
